@@ -399,6 +399,9 @@ func (c *Ctx) idScopeKey(rule string) {
 				if c.idOnceBySim("id-once-probe", fam) {
 					good := true
 					for _, o := range c.obs[saved:] {
+						if strings.HasSuffix(o.Key, ":scope-chain-recorded") {
+							continue // another matter (and a known finding of the unchanged tree)
+						}
 						if o.Verdict != "discharged" {
 							good = false
 						}
